@@ -1,6 +1,6 @@
 #!/bin/bash
 # runs every thorough tier once against a scratch clone of /repo's HEAD (unchanged tree); prints one summary line each
-cd "$(dirname "$0")"
+cd "$(dirname "$0")"; mkdir -p target
 for P in C05 C15 C09 C11 C18 C12; do
   S=$(date +%s)
   ./tools_scratch_check.sh - $P thorough > target/thorough_$P.log 2>&1; RC=$?
